@@ -9,6 +9,7 @@ import (
 	"fmt"
 	"reflect"
 	"testing"
+	"time"
 
 	"github.com/lugu/qiloop/type/value"
 	"pgregory.net/rapid"
@@ -21,7 +22,10 @@ import (
 
 const prop = "C02"
 
-func TestMain(m *testing.M) { vt.Main(m) }
+func TestMain(m *testing.M) {
+	vt.Watchdog = 30 * time.Second
+	vt.Main(m)
+}
 
 // Case carries a dynamic value as its reference encoding (signature + body),
 // from which the abstract value is rebuilt; Desc is for the human reader.
